@@ -1,6 +1,7 @@
 package main
 
 import (
+	"golang.org/x/tools/go/ssa"
 	"fmt"
 	"math/big"
 	"sort"
@@ -24,6 +25,8 @@ type evaluator struct {
 	where string // clause location for error messages
 	implFor types.Type // when verifying an implementation of an interface contract
 	preloop *state // state just before the enclosing loop's havoc (preloop(e))
+	currentParams bool // parameter names denote the current value of the parameter variable (body clauses)
+	before  *state // state before a `havoc ... at` clause of the current statement (before(e))
 	loopMark *T
 	localsSt *state // state in which local variables are read (old()/preloop() only switch the heap)
 	inLoop bool
@@ -188,6 +191,31 @@ func (ev *evaluator) eval(x Expr) Val {
 
 func (ev *evaluator) ident(name string) Val {
 	c := ev.c()
+	if ev.currentParams && ev.frame != nil && ev.x.fn != nil {
+		for _, p := range ev.x.fn.Params {
+			if p.Name() != name {
+				continue
+			}
+			// the alloc the parameter was copied into (naive form): find it through its initialising store
+			if refs := p.Referrers(); refs != nil {
+				for _, r := range *refs {
+					if st, ok := r.(*ssa.Store); ok && st.Val == p {
+						if a, ok := st.Addr.(*ssa.Alloc); ok {
+							if cell := ev.frame.cells[a]; cell != nil {
+								lst := ev.st
+								if ev.localsSt != nil {
+									lst = ev.localsSt
+								}
+								if v, ok := lst.cells[cell]; ok {
+									return v
+								}
+							}
+						}
+					}
+				}
+			}
+		}
+	}
 	if v, ok := ev.vars[name]; ok {
 		return v
 	}
@@ -995,6 +1023,17 @@ func (ev *evaluator) call(x *ECall) Val {
 			n.localsSt = ev.st
 		}
 		n.st = ev.old
+		return n.eval(x.Args[0])
+	case "before":
+		// before(e): e in the state just before a `havoc ... at` of the same statement
+		if ev.before == nil {
+			ev.fail("before() is only available in assume/assert clauses that follow a havoc clause at the same statement")
+		}
+		n := *ev
+		if n.localsSt == nil {
+			n.localsSt = ev.st
+		}
+		n.st = ev.before
 		return n.eval(x.Args[0])
 	case "preloop":
 		if ev.preloop == nil {
